@@ -4,6 +4,7 @@ package renderer
 
 import (
 	pb "diagonal.works/b6/proto"
+	"github.com/golang/geo/r2"
 	"diagonal.works/b6/verifrt"
 )
 
@@ -39,4 +40,52 @@ func verifLemma_C33_stream(ox, oy, x0, y0, x1, y1 int) {
 	cx, cy = cx+zigzagDecode(g[4]), cy+zigzagDecode(g[5])
 	verifrt.Assert(cx == x1 && cy == y1, "second-point")
 	verifrt.Assert(g[6]&7 == TileCommandClosePath && g[6]>>3 == 1, "close-path-word")
+}
+
+// ---- C34: the iterative Douglas-Peucker equals the recursive reference ---------------
+// Bounded: every line of 2..5 points; the point-to-chord distances are arbitrary
+// (an uninterpreted function of the three points), so every ordering of the
+// distances and every position of the tolerance among them is covered.
+
+func verifHelper_C34check(points []r2.Point, eps float64) {
+	verifrt.Assume(!(0.0 > eps)) // a tolerance is not negative (nor NaN-ordered below zero)
+	want := referenceDouglasPeuckerSimplify(points, eps)
+	got := douglasPeuckerSimplify(points, eps)
+	verifrt.Assert(len(got) == len(want), "same-length")
+	for i := range want {
+		verifrt.Assert(i < len(got) && got[i].X == want[i].X && got[i].Y == want[i].Y, "same-points")
+	}
+	verifrt.Assert(len(got) >= 2 && got[0].X == points[0].X && got[0].Y == points[0].Y, "keeps-first")
+	verifrt.Assert(got[len(got)-1].X == points[len(points)-1].X && got[len(got)-1].Y == points[len(points)-1].Y, "keeps-last")
+	// subsequence: greedy left-to-right matching of the output against the input succeeds
+	j := 0
+	for i := range got {
+		for j < len(points) && points[j] != got[i] {
+			j++
+		}
+		verifrt.Assert(j < len(points), "subsequence")
+		j++
+	}
+}
+
+func vNotNaN(p r2.Point) bool { return p.X == p.X && p.Y == p.Y }
+
+func verifLemma_C34_equiv2(p0, p1 r2.Point, eps float64) {
+	verifrt.Assume(vNotNaN(p0) && vNotNaN(p1))
+	verifHelper_C34check([]r2.Point{p0, p1}, eps)
+}
+
+func verifLemma_C34_equiv3(p0, p1, p2 r2.Point, eps float64) {
+	verifrt.Assume(vNotNaN(p0) && vNotNaN(p1) && vNotNaN(p2))
+	verifHelper_C34check([]r2.Point{p0, p1, p2}, eps)
+}
+
+func verifLemma_C34_equiv4(p0, p1, p2, p3 r2.Point, eps float64) {
+	verifrt.Assume(vNotNaN(p0) && vNotNaN(p1) && vNotNaN(p2) && vNotNaN(p3))
+	verifHelper_C34check([]r2.Point{p0, p1, p2, p3}, eps)
+}
+
+func verifLemma_C34_equiv5(p0, p1, p2, p3, p4 r2.Point, eps float64) {
+	verifrt.Assume(vNotNaN(p0) && vNotNaN(p1) && vNotNaN(p2) && vNotNaN(p3) && vNotNaN(p4))
+	verifHelper_C34check([]r2.Point{p0, p1, p2, p3, p4}, eps)
 }
